@@ -51,6 +51,15 @@ Monitors (all installed from here, nothing in /repo is edited)
       order, missing / extra / non-unifiable fields, unify True / False, any of them as the receiver, some with seeded randomness, then
       expressions over the unified fields (their reported type rests on the node's reported row type) and a schema model of what
       `unify` means (the widest numeric type per field); matrix tables likewise for union_rows / union_cols.
+  M9  primitive operators against an ABSOLUTE reference.  ApplyUnaryPrimOp / ApplyBinaryPrimOp / ApplyComparisonOp are typed twice on the
+      Python side (the function that builds the expression, and the node's `_compute_type` which M1 / M2 compare it with); both can agree
+      and still differ from the engine.  The engine's tables (UnaryOp.scala / BinaryOp.scala `returnType`, ComparisonOp.checkCompatible +
+      InferType) are transcribed into vf/hail_relational_rules.py and every such node -- when the expression is constructed, in every
+      finished emitted program and in every rebuilt tree that is walked -- must carry exactly the engine's result type for its operand
+      types, which must be a combination the engine accepts (`expr/primitive-op-type-differs-from-engine-rule`,
+      `expr/primitive-op-operands-rejected-by-engine-rule`, with `sent-ir/` for rebuilt trees).  Phase `primop` applies every operator of
+      the API to bool / int32 / int64 / float32 / float64 fields, typed literals and plain Python numbers (ints beyond int32) in both
+      operand orders and uses the results downstream (table fields, + int64, * float64, bit_count again, comparisons, aggregation).
 Contract evaluations are counted; zero => INCONCLUSIVE (FLOORS).
 """
 import math
@@ -85,7 +94,12 @@ RULE = (
     're-types fields to another of int32 / int64 / float32 / float64, re-orders, drops or adds a field, makes one non-unifiable, only moves the key, '
     'filters randomly; Table.union with unify True / False or multi_way_zip_join with any of them as the receiver; then an annotate over a '
     'unified field and a random consumer; for matrix tables union_rows (2..3) / union_cols over re-typed entry / col / row fields.  On every '
-    'node with several relational children the engine\'s TypeCheck assertion about the children is evaluated (emitted and rebuilt tree).  A case is non-trivial '
+    'node with several relational children the engine\'s TypeCheck assertion about the children is evaluated (emitted and rebuilt tree).  Phase primop: '
+    'per case every unary operator of the API (-, ~, bit_not, bit_count) over each of bool / int32 / int64 / float32 / float64 and 45 of the 21 x 5 x 5 '
+    'binary combinations (+ - * / // ** % bit_and / or / xor, three shifts, six comparisons, & |), operands drawn from table fields, typed literals '
+    'and plain Python values (ints beyond the int32 range, floats, bools); up to 14 results used downstream (as table fields, + int64, int64 *, '
+    'bit_count, shifts, comparisons, * float64, negation, division, if_else) in one annotate, then a random filter half of the time and an '
+    'aggregation; every primitive-operator node is judged against the transcribed engine tables.  A case is non-trivial '
     'when at least one derivational contract was evaluated; distinct by (phase, sequence of operations, resulting type).'
 )
 ASSUMPTIONS = [
@@ -94,7 +108,8 @@ ASSUMPTIONS = [
     'for relational IR (TableIR / MatrixIR) and the struct spine of their row / global / col / entry constructors it is the engine\'s own '
     'Scala `typ` definition, transcribed by hand into vf/hail_relational_rules.py (TableIR.scala, MatrixIR.scala, TableType / MatrixType / '
     'TStruct helpers, InferType.scala for MakeStruct / SelectFields / InsertFields / GetField / Let / Ref; TypeCheck.scala for what the engine '
-    'asserts about the children of TableUnion / TableMultiWayZipJoin / MatrixUnionRows / MatrixUnionCols / TableJoin / TableLeftJoinRightDistinct); '
+    'asserts about the children of TableUnion / TableMultiWayZipJoin / MatrixUnionRows / MatrixUnionCols / TableJoin / TableLeftJoinRightDistinct; '
+    'UnaryOp.scala / BinaryOp.scala returnType and ComparisonOp.checkCompatible for the primitive operators of value IR); '
     'the transcription is trusted',
     'the schema model of the Table / MatrixTable methods in this file states what the methods are documented to do',
     '"the IR it sends" is produced by calling the same entry points the action constructors call (ir.TableCollect(tir).child, '
@@ -200,6 +215,33 @@ FLOORS = {
     'nary_mwzj_refused': 7, 'nary_union_rows_accepted': 2, 'nary_union_rows_refused': 11, 'nary_union_cols_accepted': 10,
     'nary_union_cols_refused': 9, 'nary_union_cols_accepted_over_tables_that_differ_in_a_field_the_method_need_not_compare': 1,
     'nary_union_rows_accepted_over_tables_that_differ_in_a_field_the_method_need_not_compare': 1,
+    # M9 / phase primop: primitive-operator nodes judged against the engine's tables at construction / in finished emitted programs / in
+    # rebuilt trees, distinct (operator, operand types) combinations judged, API applications accepted / refused, downstream uses, and the
+    # unary operators and the 64-bit / float32 corners of the binary ones separately
+    'contract_primitive_op_constructed': 18700, 'contract_primitive_op_in_tree': 16400, 'sent_contract_primitive_op_in_tree': 12700,
+    'primop_applications_accepted': 3800, 'primop_applications_refused': 1700, 'primop_downstream_uses': 3300,
+    'primop_tables_annotated': 80, 'contract_primitive_op_constructed:Negate(int32)': 630,
+    'sent_contract_primitive_op_in_tree:Negate(int32)': 390, 'contract_primitive_op_constructed:Negate(int64)': 280,
+    'sent_contract_primitive_op_in_tree:Negate(int64)': 170, 'contract_primitive_op_constructed:Negate(float32)': 310,
+    'sent_contract_primitive_op_in_tree:Negate(float32)': 190, 'contract_primitive_op_constructed:Negate(float64)': 370,
+    'sent_contract_primitive_op_in_tree:Negate(float64)': 240, 'contract_primitive_op_constructed:Bang(bool)': 2600,
+    'sent_contract_primitive_op_in_tree:Bang(bool)': 2200, 'contract_primitive_op_constructed:BitNot(int32)': 230,
+    'sent_contract_primitive_op_in_tree:BitNot(int32)': 180, 'contract_primitive_op_constructed:BitNot(int64)': 110,
+    'sent_contract_primitive_op_in_tree:BitNot(int64)': 75, 'contract_primitive_op_constructed:BitCount(int32)': 310,
+    'sent_contract_primitive_op_in_tree:BitCount(int32)': 270, 'contract_primitive_op_constructed:BitCount(int64)': 160,
+    'sent_contract_primitive_op_in_tree:BitCount(int64)': 140, 'contract_primitive_op_constructed:LeftShift(int64, int32)': 65,
+    'sent_contract_primitive_op_in_tree:LeftShift(int64, int32)': 60, 'contract_primitive_op_constructed:RightShift(int64, int32)': 10,
+    'sent_contract_primitive_op_in_tree:RightShift(int64, int32)': 4,
+    'contract_primitive_op_constructed:LogicalRightShift(int64, int32)': 11,
+    'sent_contract_primitive_op_in_tree:LogicalRightShift(int64, int32)': 1,
+    'contract_primitive_op_constructed:FloatingPointDivide(int64, int64)': 100,
+    'sent_contract_primitive_op_in_tree:FloatingPointDivide(int64, int64)': 70,
+    'contract_primitive_op_constructed:FloatingPointDivide(float32, float32)': 120,
+    'sent_contract_primitive_op_in_tree:FloatingPointDivide(float32, float32)': 120,
+    'contract_primitive_op_constructed:RoundToNegInfDivide(int64, int64)': 40,
+    'sent_contract_primitive_op_in_tree:RoundToNegInfDivide(int64, int64)': 17,
+    'contract_primitive_op_constructed:BitXOr(int64, int64)': 25, 'sent_contract_primitive_op_in_tree:BitXOr(int64, int64)': 9,
+    'primitive_op_combinations_constructed': 65, 'primitive_op_combinations_in_tree': 65, 'sent_primitive_op_combinations_in_tree': 60, 'primop_api_combinations_accepted': 330,
 }
 
 # MatrixTable.union_cols in the matrix workload.  OFF by default: on the unchanged tree it witnesses a GENUINE disagreement between the
@@ -3087,4 +3129,15 @@ def _plain_h(v):
 #   N2  Table.multi_way_zip_join compares the row field NAMES only            -> relational/TableMultiWayZipJoin-engine-rule-rejects-accepted-node (+ sent-ir twin)
 #   N3  MatrixTable.union_rows compares the entry field NAMES only            -> relational/MatrixUnionRows-engine-rule-rejects-accepted-node (+ sent-ir twin)
 #   N4  MatrixTable.union_cols compares the col field NAMES only              -> relational/MatrixUnionCols-engine-rule-rejects-accepted-node (+ sent-ir twin)
+# -------------------------------------------------------------------------------------------------
+#
+# -------------------------------------------------------------------------------------------------
+# M9 (primitive operators against the engine's tables) -- validation record (quick tier, seed 0)
+# Why: seeded/C36-agent11 types BitCount by its operand in BOTH Python sites (functions.bit_count and ApplyUnaryPrimOp._compute_type):
+# bit_count(int64) is int64 for the front end and int32 for the engine (UnaryOp.scala: case (BitCount, TInt32 | TInt64) => TInt32).  M1 / M2
+# compare the declared type with the Python node's own rule only, and no absolute reference existed for value IR.
+#   S9  seeded/C36-agent11                                     -> expr/primitive-op-type-differs-from-engine-rule, sent-ir/expr/primitive-op-type-differs-from-engine-rule
+#   P1  (own) functions._bit_op coerces only the LEFT operand to the common width (bit_and(int64, int32) sends BitAnd over (int64, int32); the Python
+#       node takes the left type, so both Python sites agree)   -> expr/primitive-op-operands-rejected-by-engine-rule (+ sent-ir twin); nothing else fires
+# Nothing fires on /repo HEAD (06bdc1227): 72 distinct (operator, operand types) combinations judged, all agree with the engine tables.
 # -------------------------------------------------------------------------------------------------
